@@ -13,7 +13,7 @@ ANCHORS = [('tlsh.py', 'TLSH.update'), ('tlsh.py', 'TLSH.triplet'), ('tlsh.py', 
            ('tlsh.py', 'TLSH.l_capturing'), ('tlsh.py', 'TLSH.digest'), ('tlsh.py', 'TLSH.from_hash'), ('tlsh.py', 'TLSH.__call__'), ('tlsh.py', 'distance'),
            ('nilsimsa.py', 'Nilsimsa.update'), ('nilsimsa.py', 'Nilsimsa.digest'), ('nilsimsa.py', 'Nilsimsa.tran3'), ('nilsimsa.py', 'Nilsimsa.maketran'),
            ('nilsimsa.py', 'distance')]
-REQUIRED = ['siblings:digest==model', 'tlsh==model', 'tlsh:length', 'tlsh:none-not-exception', 'tlsh:reload-roundtrip', 'tlsh:distance-laws', 'nilsimsa==model',
+REQUIRED = ['tlsh:lvalue==model', 'siblings:digest==model', 'tlsh==model', 'tlsh:length', 'tlsh:none-not-exception', 'tlsh:reload-roundtrip', 'tlsh:distance-laws', 'nilsimsa==model',
             'nilsimsa:length', 'nilsimsa:distance==hamming']
 NSHARDS = 14
 SAN = {'quick': (0, 1), 'thorough': (1, 50)}
@@ -51,6 +51,9 @@ def cases(tier, rng):
                     yield {'k': 'nil', 'target': t, 'n': n, 'kind': kind}
         for j in range(30):
             yield {'k': 'nil-dist', 'j': j}
+        if rep == 0:
+            for lo in range(1, 200001 if tier == 'quick' else 2000001, 10000):
+                yield {'k': 'lvalue', 'lo': lo, 'hi': lo + 10000}
         for j in range(12 if tier == 'quick' else 60):
             yield {'k': 'siblings', 'fam': ['nilsimsa', 'tlsh'][j % 2], 'j': j}
 
@@ -109,6 +112,22 @@ def run(case, ctx, rng):
             if want != 'UNSPEC':
                 ctx.eq('tlsh==model', got, want, **det)
                 ctx.eq('tlsh:gate-boundary', got is None, want is None, **det)
+    elif k == 'lvalue':
+        # the length byte as a function of the input length, for every length in the range (no data needs hashing: the
+        # object's public data_len is set and its own l_capturing() is asked)
+        from crysp.tlsh import TLSH
+        ctx.cls(('lvalue', case['lo'] // 50000))
+        o = TLSH(128)
+        bad = 0
+        for n in range(case['lo'], case['hi']):
+            o.data_len = n
+            got = call(o.l_capturing)
+            if got != sh.tlsh_lvalue(n) or is_exc(got):
+                bad += 1
+                if bad <= 3:
+                    ctx.eq('tlsh:lvalue==model', got, sh.tlsh_lvalue(n), n=n)
+        ctx.check('tlsh:lvalue==model', bad == 0, '%d lengths differ' % bad, 'all lengths agree', lo=case['lo'], hi=case['hi'])
+        ctx.exhaustive['TLSH length byte for every input length 1..200000 (quick) / 2000000 (thorough)'] += case['hi'] - case['lo']
     elif k == 'tlsh-dist':
         from crysp.tlsh import TLSH, distance
         b, w, c = case['cfg']
